@@ -737,6 +737,16 @@ func isDotStar(sre *syntax.Regexp) bool {
 	}
 }
 
+// regexpMatchesEverything reports whether expr is the empty expression or .*: no value has to be inspected
+func regexpMatchesEverything(expr []byte) bool {
+	sre, err := syntax.Parse(string(expr), syntax.Perl)
+	if err != nil {
+		return false
+	}
+	sre = sre.Simplify()
+	return sre.Op == syntax.OpEmptyMatch || isDotStar(sre)
+}
+
 func isDotPlus(sre *syntax.Regexp) bool {
 	switch sre.Op {
 	case syntax.OpCapture:
